@@ -30,12 +30,12 @@ Qed.
 (* what fetching the next command costs at most *)
 Definition idle_cur (M : mpc) (S : nat) : nat :=
   match M with
-  | MPlayAcq a _ => 8 + (S + 1) + new_budget a + LOOPW
+  | MPlayAcq a _ pl => 8 + (S + 1) + new_budget a pl + LOOPW
   | MCtlAcq _ _ => 4
   | MCloseAcqH => 10 + tail S
   | _ => 0
   end.
-Definition idle_S (M : mpc) (S : nat) : nat := match M with MPlayAcq _ _ => S + 1 | _ => S end.
+Definition idle_S (M : mpc) (S : nat) : nat := match M with MPlayAcq _ _ _ => S + 1 | _ => S end.
 
 Lemma fetch_cost np B sc :
   idle_cur (fst (fetch np sc)) B + cost (snd (fetch np sc)) (idle_S (fst (fetch np sc)) B) <= cost sc B.
@@ -109,16 +109,21 @@ Proof.
   destruct (ppc_ p) eqn:Epc; break_step H; inversion H; subst s'; clear H; split_ifs.
   all: unfold measure.
   all: try (rewrite (started_bound_ext _ s) by reflexivity; rewrite (cur_ext _ s) by reflexivity;
-            simpl; pm_tac Ep Epc; try rewrite E in *; unfold loop_pc in *;
+            simpl; pm_tac Ep Epc; unfold loop_pc, crash_pc in *;
+            repeat match goal with
+                   | Hx : pfill ?q = _, H : context[pfill ?q] |- _ => rewrite Hx in H
+                   | Hx : prem ?q = _ :: _, H : context[prem ?q] |- _ => rewrite Hx in H
+                   end;
             repeat match goal with
                    | H : context[match prem ?q with _ => _ end] |- _ => destruct (prem q) eqn:?
-                   | H : context[if pcrash ?q then _ else _] |- _ => unfold crash_pc in *; destruct (pcrash q)
+                   | H : context[if pcrash ?q then _ else _] |- _ => destruct (pcrash q)
+                   | H : context[hd 0 (ppulls ?q)] |- _ => destruct (ppulls q)
                    end; simpl in *; lia).
   (* PFinRemove *)
   rewrite (started_bound_ext _ s) by reflexivity.
   rewrite (cur_ext _ (set_threads s (remove_first i (sthreads s)))) by reflexivity.
   pose proof (cur_remove s i (started_bound s)) as Hc.
-  simpl. pm_tac Ep Epc. lia.
+  simpl. pm_tac Ep Epc. rewrite E in Hsum. lia.
 Qed.
 
 Lemma next_cmd_players x : splayers (next_cmd x) = splayers x.
@@ -171,9 +176,9 @@ Proof.
     destruct (nth_error_some_of_lt (splayers s) p) as [q Hq];
       [apply (g_refs _ G); rewrite HM; simpl; tauto|].
     assert (Epc : ppc_ q = PNew) by (apply (p_new _ _ _ (P p q Hq)); rewrite HM; reflexivity).
-    pose proof (pmeasure_upd (fun q0 => p_set_pc q0 (loop_pc q0)) (splayers s) p q Hq) as Hs.
-    unfold pm, loop_pc, crash_pc in Hs. simpl in Hs. rewrite Epc in Hs. unfold loop_pc, crash_pc.
-    destruct (prem q); destruct (pcrash q); simpl in Hs; lia.
+    pose proof (pmeasure_upd p_loop (splayers s) p q Hq) as Hs.
+    unfold pm in Hs. simpl in Hs. unfold loop_pc, crash_pc in Hs. rewrite Epc in Hs.
+    destruct (prem q); destruct (pcrash q); destruct (ppulls q); simpl in Hs; lia.
   - (* MCloseGet -> MCloseLoopRel *) rewrite E. simpl. rewrite Nat.eqb_refl. simpl. lia.
   - (* MCloseJoin -> MCloseLoopAcq: the joined thread has left _threads *)
     pose proof (p_threads _ _ _ (P t p E)) as Hth. rewrite E0 in Hth. simpl in Hth. rewrite Hth. lia.
